@@ -1072,6 +1072,18 @@ theorem refines_spec_partial_limits (cx : Ctx F E) (hnf : NoFormulaNodes cx) (fu
   · exact floatSetMaxF_iff cx hnf fuel n v st.s s'
   · exact enumSetByNameF_iff cx hnf fuel n name st.s s'
 
+/-- **refines_spec_partial (raw register read)**: on graphs without converter / swiss-knife
+nodes, `IRegister::read` into a buffer of `bufLen` bytes succeeds with `bs` exactly when the
+reference says the register's bytes (its length's worth of the device image at its address,
+through a plain port) are `bs` and `bufLen` is that length. -/
+theorem refines_spec_partial_regread (cx : Ctx F E) (hnf : NoFormulaNodes cx) (fuel : Nat) (n : NodeId)
+    (bufLen : Nat) (st : St F) (bs : Bytes) :
+    (exec cx (fuel + 1) (.regRead n bufLen) st).1 = .ok (.bytes bs) ↔
+      specRegRead cx fuel n bufLen st.s = some bs := by
+  simp only [exec, top]
+  exact read_iff st bs (fun a b h => by injection h) (fun a h => (regReadF_iff cx hnf fuel n bufLen st.s a).mp h)
+    (fun a h => (regReadF_iff cx hnf fuel n bufLen st.s a).mpr h)
+
 /-- Without any restriction on the graph: wherever the reference semantics assigns a
 value, the interpreter returns exactly it (formula nodes simply have no reference value). -/
 theorem spec_values_returned (cx : Ctx F E) (fuel : Nat) (n : NodeId) (st : St F) :
@@ -1189,6 +1201,11 @@ example : (exec Ex.cx 4 (.intMax 6) Ex.st).1 = .ok (.int 9) ∧ specIntMax Ex.cx
     specEnumSetByName Ex.cx 3 7 "Nope" Ex.st.s = none ∧
     (exec Ex.cx 4 (.enumSetByName 7 "Nope") Ex.st).1 = .err .invalidData := by
   refine ⟨?_, ?_, ?_, ?_, ?_, ?_, ?_, ?_, ?_⟩ <;> rfl
+/-- raw register read on the example graph: register 4 (address 1 + 1·1 = 2, length 1) holds
+device byte 9; a 2-byte buffer does not match its length -/
+example : (exec Ex.cx 4 (.regRead 4 1) Ex.st).1 = .ok (.bytes [9]) ∧ specRegRead Ex.cx 3 4 1 Ex.st.s = some [9] ∧
+    (exec Ex.cx 4 (.regRead 4 2) Ex.st).1 = .err .invalidBuffer ∧ specRegRead Ex.cx 3 4 2 Ex.st.s = none := by
+  refine ⟨?_, ?_, ?_, ?_⟩ <;> rfl
 /-- the first-principles pieces on concrete data -/
 example : selectIndexed [(0, "a"), (1, "b"), (1, "c")] "d" 1 = "b" ∧
     selectIndexed [(0, "a"), (1, "b")] "d" 5 = "d" ∧
